@@ -54,10 +54,12 @@ func VerifH_C19_error_classes() {
 		return "var cls = 'none'; try { " + body + " } catch (e) { cls = e instanceof TypeError ? 'TypeError' : e instanceof RangeError ? 'RangeError' : e instanceof ReferenceError ? 'ReferenceError' : e instanceof SyntaxError ? 'SyntaxError' : e instanceof URIError ? 'URIError' : 'other'; nm = e.name; msg = e.message; proto = Object.getPrototypeOf(e) === this[cls].prototype } cls"
 	}
 	var script, want string
-	switch verifChoose(8) {
-	case 0: // calling a non-function: any primitive
+	switch verifChoose(10) {
+	case 0: // calling or constructing a non-function: any primitive, every call form
 		verifSetKind(vm, "x", verifChoose(5), 2)
-		script, want = "x()", "TypeError"
+		vm.Run("var o = {m: x}")
+		forms := []string{"x()", "new x()", "new x", "o.m()", "new o.m()", "new o.m", "o['m'](1)", "new o['m'](1, 2)", "(function(){ return x })()()", "new (function(){ return x })()(1)", "[x][0]()"}
+		script, want = forms[verifChoose(len(forms))], "TypeError"
 	case 1: // property of undefined / null
 		verifSetKind(vm, "x", verifChoose(2), 0)
 		script, want = "x.p", "TypeError"
@@ -93,7 +95,29 @@ func VerifH_C19_error_classes() {
 	case 5:
 		script, want = "thisNameIsNotDefined", "ReferenceError"
 	case 6:
-		script, want = "eval('var = 1')", "SyntaxError"
+		script, want = []string{"eval('var = 1')", "Function('var = 1')", "new Function('a', 'return +')", "new RegExp('(')"}[verifChoose(4)], "SyntaxError"
+	case 8: // unresolvable reference in every position it can be read
+		script, want = []string{"notDefined()", "new notDefined()", "notDefined.p", "1 + notDefined", "notDefined++", "typeof notDefined.p"}[verifChoose(6)], "ReferenceError"
+	case 9: // radix / fraction digits out of range
+		r := verifNondetFloat64()
+		vm.Set("x", r)
+		ri := refToInteger(r)
+		if verifNondetBool() {
+			script = "(5).toString(x)"
+			if ri >= 2 && ri <= 36 {
+				want = "none"
+			} else {
+				want = "RangeError"
+			}
+		} else {
+			script = "(5).toFixed(x)"
+			if ri >= 0 && ri <= 20 {
+				want = "none"
+			} else {
+				verifAssume(ri < 0 || ri > 100) // 21..100 digits: allowed by later editions, accepted or rejected
+				want = "RangeError"
+			}
+		}
 	default:
 		script, want = "var c = {}; c.c = c; JSON.stringify(c)", "TypeError"
 	}
